@@ -213,6 +213,20 @@ pub fn invariant_state<S: Sch>(e: &Enr<S::K>, obs: &Obs) -> Vec<(&'static str, S
             serde_json::from_str::<Enr<S::K>>(&j).map_err(|e| e.to_string())
         }),
     ));
+    forms.push((
+        "serde_json::from_value(to_value(r))",
+        real::guard(|| {
+            let v = serde_json::to_value(e).map_err(|e| e.to_string())?;
+            serde_json::from_value::<Enr<S::K>>(v).map_err(|e| e.to_string())
+        }),
+    ));
+    forms.push((
+        "serde_json::from_reader(to_vec(r))",
+        real::guard(|| {
+            let v = serde_json::to_vec(e).map_err(|e| e.to_string())?;
+            serde_json::from_reader::<_, Enr<S::K>>(&v[..]).map_err(|e| e.to_string())
+        }),
+    ));
     for (l, r) in forms {
         match r {
             Ok(Ok(d)) => {
@@ -331,6 +345,9 @@ pub fn transition<S: Sch>(node: &Node<S>, step: &Step, ctx: &Ctx<S>, faults: boo
             }
             if pred.errs.is_empty() {
                 // model: must succeed
+                if matches!(step.act, Act::SetSeq(_)) {
+                    push("C07", format!("setting the sequence number to a legal value is refused with Err({kind:?})"), String::new(), &hist, &mut viols);
+                }
                 if *kind == ErrKind::ExceedsMaxSize {
                     // C09 states "refused exactly when exceeded" for the built-in 64-byte schemes only
                     if !S::VAR_LEN {
